@@ -2,6 +2,10 @@
 """writes MANIFEST.json from the table below (keeps it valid and in one place)"""
 import json, os
 CHECKS = {
+ 'C20': dict(technique='path-sensitive guard check of every store through the output cursor and of the space handed to the callee (R-OUT-BOUND)',
+             text='Decides one clause of C20 - nothing is written outside the window the caller supplied: every cursor store holds cursor < end for the current '
+                  'cursor value and coap_print_link receives end - cursor. Window/total/truncation exactness and filter semantics are not decided.',
+             design='6 C20'),
  'C09': dict(technique='call-exactly-once / hand-over / store-and-link typestate on the release callback (R-RELEASE-ONCE)',
              text='Decides one clause of C09 - the sender\'s release callback runs exactly once - on every path of every function that takes a release_func and of '
                   'the lg_xmit deleter. One genuine defect (request == NULL in coap_add_data_large_response_lkd) is a known finding. Body integrity, tiling, '
